@@ -160,6 +160,7 @@ def standard(res, args, pid, prop_file, theorems, classes_note, partial=()):
     if pid == "C18":
         from lib import dbggen
         dbggen.obligations(res)
+        dbggen.flog_obligations(res)
     from lib import apigen
     if pid in apigen.API_THEOREMS:
         apigen.api_obligations(res, pid)
